@@ -487,3 +487,66 @@ func c02Chain(c *Ctx, r *Report, rule string) {
 		r.check(len(problems) == 0, rule, name, key, "-", fmt.Sprintf("%d path(s)", len(paths)), strings.Join(dedup(problems), "; "))
 	}
 }
+
+// c02HandlersCompile: the other place where a handler chain is built (Handlers.Compile: the tee branch). The
+// function is evaluated for lists of 1..3 handlers with wrapHandler evaluated in place; the value it returns is a
+// nest of closures whose bindings are read off: the outermost wraps the first configured handler, each one's next is
+// the chain of the following handlers, the innermost next is the no-op end.
+func c02HandlersCompile(c *Ctx, r *Report, rule string) {
+	r.rule(rule, "chain composition of Handlers.Compile (evaluation for lists of 1..3 handlers, wrapHandler in place): the returned handler is handlers[0] wrapped around handlers[1] ... around the no-op end - a branch's handlers run in the configured order, each on what the one before it hands on", 3)
+	fnName := "layer4.(Handlers).Compile"
+	fn := c.Fn(fnName)
+	if fn == nil {
+		r.bad(rule, fnName, "exists", "-", "function not found")
+		return
+	}
+	for k := 1; k <= 3; k++ {
+		key := fmt.Sprintf("handlers=%d", k)
+		sc := &Scenario{Name: key, MaxVisit: 12, MaxPaths: 200,
+			Params: map[string]SV{"recv": symSlice("hs", int64(k))},
+			Heap:   map[string]SV{},
+			Inline: func(f *ssa.Function) bool {
+				return f.Pkg != nil && f.Pkg == fn.Pkg && (f.Name() == "wrapHandler" || (f.Parent() != nil && f.Parent().Name() == "wrapHandler"))
+			},
+		}
+		for i := 0; i < k; i++ {
+			sc.Heap[fmt.Sprintf("hs[%d]", i)] = symRef(fmt.Sprintf("handler%d", i), false)
+		}
+		paths, err := evalPaths(fn, sc)
+		if err != nil || len(paths) != 1 || paths[0].Outcome != "return" || len(paths[0].Ret) != 1 {
+			r.bad(rule, fnName, key, c.pos(fn.Pos()), fmt.Sprintf("undecided: %d paths, %v", len(paths), err))
+			continue
+		}
+		// read the nest: a closure bound to (handler, next)
+		var order []string
+		v := paths[0].Ret[0]
+		end := ""
+		for depth := 0; depth < 8; depth++ {
+			if v.Fn == nil || len(v.Bind) < 2 {
+				end = v.Desc
+				break
+			}
+			h, next := v.Bind[0], v.Bind[1]
+			// captured variables are cells: what they hold at the end
+			for i := 0; i < 3; i++ {
+				if hv, ok := paths[0].Heap[h.Desc]; ok && strings.HasPrefix(h.Desc, "cell:") {
+					h = hv
+				}
+				if nv, ok := paths[0].Heap[next.Desc]; ok && strings.HasPrefix(next.Desc, "cell:") {
+					next = nv
+				}
+			}
+			if strings.HasPrefix(next.Desc, "handler") && !strings.HasPrefix(h.Desc, "handler") {
+				h, next = next, h
+			}
+			order = append(order, h.Desc)
+			v = next
+		}
+		var want []string
+		for i := 0; i < k; i++ {
+			want = append(want, fmt.Sprintf("handler%d", i))
+		}
+		good := strings.Join(order, ",") == strings.Join(want, ",") && !strings.HasPrefix(end, "handler") && end != ""
+		r.check(good, rule, fnName, key, c.pos(fn.Pos()), "outermost first: "+strings.Join(order, " > ")+" > "+end, fmt.Sprintf("the chain is %s > %s, the configured order is %s: a later handler of the branch runs before an earlier one (it sees the stream before the earlier one has stripped, decrypted or throttled it)", strings.Join(order, " > "), end, strings.Join(want, " > ")))
+	}
+}
